@@ -500,6 +500,13 @@ pub fn check(scn: &Scenario, obs: &mut Obs) -> Result<(), Fail> {
         }
         faults.push(Fault::BadFrame { cut: *b, kind: k as u8 });
         faults.push(Fault::Unbind { cut: *b });
+        // ... and while the server is silent in the MIDDLE of a PDU (the driver sits on a partial frame)
+        let next_end = boundaries.get(k + 1).copied().unwrap_or(base.r_len);
+        if next_end > *b + 1 {
+            faults.push(Fault::Unbind { cut: *b + 1 });
+            faults.push(Fault::Unbind { cut: *b + (next_end - *b) / 2 });
+            faults.push(Fault::Unbind { cut: next_end - 1 });
+        }
         faults.push(Fault::AbandonWriteFail { cut: *b });
         faults.push(Fault::UnbindWriteFail { cut: *b });
     }
